@@ -54,6 +54,14 @@ contract('MatlabWrapper._group_methods',
          params={'methods': 'list[%s]' % METHODISH},
          returns=_list_of_list_of_elem('methods'), fresh=True,
          modifies=['heap:backup', 'alloc'],
-         ensures=['forall(0, len(result), lambda g: len(result[g]) >= 1)'],
+         ensures=['forall(0, len(result), lambda g: len(result[g]) >= 1 and is_fresh(result[g]))'],
          raises={'AssertionError': None},
          assumed=True, note='type-level contract; grouping clauses are in contracts/c06.py')
+
+contract('MatlabWrapper.class_comment', params={'instantiated_class': 'ref:InstantiatedClass'}, returns='str',
+         assumed=True, note='comment text only (no gateway call); type-level contract')
+contract('MatlabWrapper.wrap_properties_block', params={'class_name': 'str', 'inst_class': 'ref:InstantiatedClass'},
+         returns='str', assumed=True, note='properties block text only; type-level contract')
+contract('MatlabWrapper.wrap_enum', params={'enum': 'ref:Enum'}, returns='tuple[str,str]',
+         assumed=True, note='type-level here; enumerator numbering is a C10 clause')
+contract('FormatMixin._clean_class_name', params={'instantiated_class': 'ref:InstantiatedClass'}, returns='str')
